@@ -430,9 +430,15 @@ func run(cs Case) ev.Outcome {
 		return ev.Fail("circuit/compute-error", "Compute: %v\n%s", err, describe())
 	}
 	if !equalLists(plain, c.model) {
-		return ev.Fail("circuit/compute-differs-from-model/"+c.feat,
-			"the circuit compiled for TargetGMW does not compute the program (a compiler defect, not a protocol defect): Compute = %s, model = %s\n%s",
+		// The circuit compiled for TargetGMW does not compute the
+		// program: a compiler / circuit library defect (C03, C07, C09),
+		// not a protocol defect.  C10 speaks about the protocol
+		// relative to the plain evaluation of the circuit, so the case
+		// is counted and skipped here.
+		ev.Get(prop).Count("compiled-circuit-differs-from-model/"+c.feat, 1)
+		fmt.Printf("c10: skipped, GMW circuit differs from the model: Compute = %s, model = %s\n%s\n",
 			hexList(plain), hexList(c.model), describe())
+		return ev.Outcome{Skip: "GMW-compiled circuit differs from the program model (C03/C07/C09 domain)"}
 	}
 
 	sizes := make([][]int, n)
